@@ -355,7 +355,7 @@ Qed.
 
 Lemma len_pdb_charge it : String.length (pdb_charge it) = 2.
 Proof.
-  unfold pdb_charge. destruct it as [| | |s]; try reflexivity.
+  unfold pdb_charge, charge_cols. destruct it as [| | |s]; try reflexivity.
   destruct (py_int s) as [z|]; [|reflexivity].
   destruct (digit1 (Z.abs z)); reflexivity.
 Qed.
@@ -421,14 +421,27 @@ Ltac projs :=
 Definition vfacts (lo hi : nat) (s : string) : Prop :=
   noblank s = true /\ lo <= String.length s /\ String.length s <= hi.
 
+Lemma okvp_inv lo hi s : okvp lo hi s = true ->
+  vfacts lo hi s /\ not_marker s = true.
+Proof.
+  unfold okvp. intros H. apply andb_true_iff in H as [H1 H2]. split; [now apply okv_inv|exact H2].
+Qed.
+
+Lemma not_marker_missing s : not_marker s = true -> 1 <= String.length s -> is_missing (Some s) = false.
+Proof.
+  unfold not_marker. intros H L. apply negb_true_iff in H. apply orb_false_iff in H as [Hd Hq].
+  cbn [is_missing]. rewrite Hd, Hq, !orb_false_r. destruct s; [cbn in L; lia|reflexivity].
+Qed.
+
 Lemma expressible_inv r k :
   expressible r = true -> spec_kind r = Some k ->
   exists sid snm scomp sasym sseq sx sy sz socc sb sts serial sq,
-    (group_PDB r = Tok (kind_name k) /\ id r = Tok sid /\ auth_atom_id r = Tok snm /\
-     auth_comp_id r = Tok scomp /\ auth_asym_id r = Tok sasym /\ auth_seq_id r = Tok sseq) /\
+    (group_PDB r = Tok (kind_name k) /\ id r = Tok sid /\ name_item r = Tok snm /\
+     comp_item r = Tok scomp /\ auth_asym_id r = Tok sasym /\ auth_seq_id r = Tok sseq) /\
     (Cartn_x r = Tok sx /\ Cartn_y r = Tok sy /\ Cartn_z r = Tok sz /\
      occupancy r = Tok socc /\ B_iso_or_equiv r = Tok sb /\ type_symbol r = Tok sts) /\
-    (vfacts 1 5 sid /\ py_int sid = Ok serial) /\ vfacts 1 4 snm /\ vfacts 1 3 scomp /\
+    (vfacts 1 5 sid /\ py_int sid = Ok serial) /\ (vfacts 1 4 snm /\ not_marker snm = true) /\
+    (vfacts 1 3 scomp /\ not_marker scomp = true) /\
     vfacts 1 1 sasym /\ (vfacts 1 4 sseq /\ py_int sseq = Ok sq) /\
     (vfacts 1 8 sx /\ vfacts 1 8 sy /\ vfacts 1 8 sz) /\
     (vfacts 1 6 socc /\ vfacts 1 6 sb /\ vfacts 1 2 sts) /\
@@ -446,8 +459,8 @@ Proof.
   apply andb_true_iff in HE as [HE Hcomp]. apply andb_true_iff in HE as [HE Halt].
   apply andb_true_iff in HE as [HE Hnm]. apply andb_true_iff in HE as [_ Hid].
   destruct (tokp_inv _ _ Hid) as (sid & Eid & Hid'). apply andb_true_iff in Hid' as [Hid1 Hid2].
-  destruct (tokp_inv _ _ Hnm) as (snm & Enm & Hnm').
-  destruct (tokp_inv _ _ Hcomp) as (scomp & Ecomp & Hcomp').
+  destruct (tokp_inv _ _ Hnm) as (snm & Enm & Hnm'). apply okvp_inv in Hnm'.
+  destruct (tokp_inv _ _ Hcomp) as (scomp & Ecomp & Hcomp'). apply okvp_inv in Hcomp'.
   destruct (tokp_inv _ _ Hasym) as (sasym & Easym & Hasym').
   destruct (tokp_inv _ _ Hseq) as (sseq & Eseq & Hseq'). apply andb_true_iff in Hseq' as [Hseq1 Hseq2].
   destruct (tokp_inv _ _ Hx) as (sx & Ex & Hx'). destruct (tokp_inv _ _ Hy) as (sy & Ey & Hy').
@@ -455,6 +468,7 @@ Proof.
   destruct (tokp_inv _ _ Hb) as (sb & Eb & Hb'). destruct (tokp_inv _ _ Hts) as (sts & Ets & Hts').
   destruct (is_int_inv _ Hid2) as [serial Hserial]. destruct (is_int_inv _ Hseq2) as [sq Hsq].
   exists sid, snm, scomp, sasym, sseq, sx, sy, sz, socc, sb, sts, serial, sq.
+  destruct Hnm' as [(? & ? & ?) ?]. destruct Hcomp' as [(? & ? & ?) ?].
   unfold vfacts. repeat split; auto; try (now apply okv_inv); eapply okv_inv; eauto.
 Qed.
 
@@ -497,94 +511,104 @@ Proof.
   destruct (expressible_inv r k HE HK) as
     (sid & snm & scomp & sasym & sseq & sx & sy & sz & socc & sb & sts & serial & sq &
      (Eg & Eid & Enm & Ecomp & Easym & Eseq) & (Ex & Ey & Ez & Eocc & Eb & Ets) &
-     (Fid & Hserial) & Fnm & Fcomp & Fasym & (Fseq & Hsq) & (Fx & Fy & Fz) & (Focc & Fb & Fts) & Halt & Hins & Hchg).
-  destruct r as [g rid ts lnm alt lcomp lasym ins x y z occ b chg seq acomp aasym anm mnum].
-  projs. subst.
+     (Fid & Hserial) & (Fnm & _) & (Fcomp & _) & Fasym & (Fseq & Hsq) & (Fx & Fy & Fz) & (Focc & Fb & Fts) & Halt & Hins & Hchg).
   destruct (col1 _ Halt) as [LA SA]. destruct (col1 _ Hins) as [LI SI].
-  exists serial, sq. cbn [tok_or]. split; [exact Hserial|]. split; [exact Hsq|].
-  unfold pdb_line_of_row, fields_of_row, fields_of_row_chg. projs. cbn [tok_or].
-  pose proof (len_pdb_charge chg) as LC.
+  exists serial, sq. rewrite Eid, Eseq. cbn [tok_or]. split; [exact Hserial|]. split; [exact Hsq|].
+  unfold pdb_line_of_row, fields_of_row, fields_of_row_chg.
+  rewrite Eg, Eid, Enm, Ecomp, Easym, Eseq, Ex, Ey, Ez, Eocc, Eb, Ets. cbn [tok_or].
+  pose proof (len_pdb_charge (pdbx_formal_charge r)) as LC.
   match goal with |- parse_atom k ?L = _ =>
-    replace L with (cat [ljust 6 (kind_name k); rjust 5 sid; " "; pdb_name snm sts; ljust 1 (tok_or "" alt);
-                         rjust 3 scomp; " "; ljust 1 sasym; rjust 4 sseq; ljust 1 (tok_or "" ins); "   ";
+    replace L with (cat [ljust 6 (kind_name k); rjust 5 sid; " "; pdb_name snm sts; ljust 1 (tok_or "" (label_alt_id r));
+                         rjust 3 scomp; " "; ljust 1 sasym; rjust 4 sseq; ljust 1 (tok_or "" (pdbx_PDB_ins_code r)); "   ";
                          rjust 8 sx; rjust 8 sy; rjust 8 sz; rjust 6 socc; rjust 6 sb; "      "; "    ";
-                         rjust 2 sts; pdb_charge chg])
+                         rjust 2 sts; pdb_charge (pdbx_formal_charge r)])
       by (cbn [cat fold_right]; rewrite app_empty_r; reflexivity)
   end.
-  rewrite (parse_std k sid snm sts _ (tok_or "" alt) scomp sasym sseq _ (tok_or "" ins) sx sy sz socc sb _ serial sq);
-    try assumption.
+  rewrite (parse_std k sid snm sts _ (tok_or "" (label_alt_id r)) scomp sasym sseq _ (tok_or "" (pdbx_PDB_ins_code r))
+             sx sy sz socc sb _ serial sq); try assumption.
   rewrite (take_all _ 2 LC). reflexivity.
 Qed.
 
-(* ---- the CIF path: every guarded row, every covered library convention ------------------ *)
+(* ---- the CIF path: the repaired code assembles exactly the PDB record --------------------- *)
 
 Lemma row_kind_tok mv k r : group_PDB r = Tok (kind_name k) -> row_kind mv r = Ok (Some k).
 Proof. intros H. unfold row_kind. rewrite H. destruct k; reflexivity. Qed.
 
-Lemma get_chg_ok mv chg : missing_or noblank chg = true -> exists v, get mv chg = Ok v.
-Proof. destruct chg; cbn; intros; try discriminate; eauto. Qed.
-
-Lemma guard_inv r : guard r = true ->
-  expressible r = true /\ item_eqb (label_atom_id r) (auth_atom_id r) = true /\
-  item_eqb (label_comp_id r) (auth_comp_id r) = true.
+(* _auth_or_label returns the name the row denotes *)
+Lemma pick_code mv a l s : mv_ok mv = true -> eff a l = Tok s -> is_missing (Some s) = false ->
+  pick mv a l = Ok (Some s).
 Proof.
-  unfold guard, c_label_ne_auth. intros H. apply andb_true_iff in H as [HE H].
-  apply negb_true_iff, negb_false_iff in H. apply andb_true_iff in H as [H1 H2]. auto.
+  intros Hmv He Hs. destruct (mv_ok_inv _ Hmv) as [Hd Hq].
+  destruct a as [| | |t]; cbn [eff] in He; cbn [pick get bind].
+  - rewrite He. reflexivity.
+  - rewrite Hd, He. reflexivity.
+  - rewrite Hq, He. reflexivity.
+  - inversion He; subst t. rewrite Hs. reflexivity.
 Qed.
 
-Lemma tail_chg (v : option string) :
-  strip (take 2 (if eq_lit v "?" then "  " else "")) = "".
-Proof. destruct (eq_lit v "?"); reflexivity. Qed.
-
-(* the repaired reader returns the atom the row denotes, with blank columns 79-80 *)
-Theorem cif_reads_row : forall mv r k,
-  mv_ok mv = true -> guard r = true -> spec_kind r = Some k ->
-  exists serial seq l,
-    py_int (tok_or "" (id r)) = Ok serial /\ py_int (tok_or "" (auth_seq_id r)) = Ok seq /\
-    row_fields mv r = Ok (Some (l, fields_of_row_chg k serial seq r "")).
+(* _pdb_charge computes the spec's columns 79-80 *)
+Lemma charge_code mv chg : mv_ok mv = true -> missing_or noblank chg = true ->
+  exists v, get mv chg = Ok v /\ pdb_charge_v v = pdb_charge chg.
 Proof.
-  intros mv r k Hmv HG HK. destruct (guard_inv r HG) as (HE & Hlab1 & Hlab2).
+  intros Hmv H. destruct (mv_ok_inv _ Hmv) as [Hd Hq].
+  destruct chg as [| | |s]; cbn [missing_or] in H; try discriminate.
+  - exists (mv_dot mv). split; [reflexivity|]. unfold pdb_charge_v. rewrite Hd. reflexivity.
+  - exists (mv_qm mv). split; [reflexivity|]. unfold pdb_charge_v. rewrite Hq. reflexivity.
+  - exists (Some s). split; [reflexivity|]. unfold pdb_charge_v, pdb_charge.
+    destruct (is_missing (Some s)) eqn:E; [|reflexivity].
+    cbn [is_missing] in E. apply orb_true_iff in E as [E|E]; [apply orb_true_iff in E as [E|E]|];
+      apply String.eqb_eq in E; subst s; reflexivity.
+Qed.
+
+Theorem cif_line_is_pdb_record : forall mv r k,
+  mv_ok mv = true -> expressible r = true -> spec_kind r = Some k ->
+  row_line mv r = Ok (Some (k, pdb_line_of_row r)).
+Proof.
+  intros mv r k Hmv HE HK.
   destruct (expressible_inv r k HE HK) as
     (sid & snm & scomp & sasym & sseq & sx & sy & sz & socc & sb & sts & serial & sq &
      (Eg & Eid & Enm & Ecomp & Easym & Eseq) & (Ex & Ey & Ez & Eocc & Eb & Ets) &
-     (Fid & Hserial) & Fnm & Fcomp & Fasym & (Fseq & Hsq) & (Fx & Fy & Fz) & (Focc & Fb & Fts) & Halt & Hins & Hchg).
+     (Fid & Hserial) & (Fnm & Mnm) & (Fcomp & Mcomp) & Fasym & (Fseq & Hsq) & (Fx & Fy & Fz) & (Focc & Fb & Fts) & Halt & Hins & Hchg).
   pose proof (row_kind_tok mv k r Eg) as HRK.
-  destruct r as [g rid ts lnm alt lcomp lasym ins x y z occ b chg seq acomp aasym anm mnum].
-  projs. subst.
-  destruct (item_eqb_inv _ _ Hlab1) as (s1 & -> & E1). inversion E1; subst s1; clear E1.
-  destruct (item_eqb_inv _ _ Hlab2) as (s2 & -> & E2). inversion E2; subst s2; clear E2.
-  destruct (col1 _ Halt) as [LA SA]. destruct (col1 _ Hins) as [LI SI].
-  destruct (col1_code mv alt Hmv Halt) as (valt & Ealt & Calt).
-  destruct (col1_code mv ins Hmv Hins) as (vins & Eins & Cins).
-  destruct (get_chg_ok mv chg Hchg) as [vch Ech].
-  pose proof Fnm as (_ & _ & Lnm4). pose proof Fasym as (_ & La1 & La2).
-  exists serial, sq. cbn [tok_or].
-  unfold row_fields, row_line. rewrite HRK. cbn [bind].
-  unfold assemble. projs. cbn [get bind py_str ljust_v rjust_v need_str].
-  rewrite Ealt. cbn [bind]. rewrite Eins. cbn [bind]. rewrite Ech. cbn [bind].
-  rewrite Calt, Cins.
+  destruct (col1_code mv _ Hmv Halt) as (valt & Ealt & Calt).
+  destruct (col1_code mv _ Hmv Hins) as (vins & Eins & Cins).
+  destruct (charge_code mv _ Hmv Hchg) as (vch & Ech & Cch).
+  pose proof Fnm as (_ & Lnm1 & Lnm4). pose proof Fcomp as (_ & Lc1 & _). pose proof Fasym as (_ & La1 & La2).
+  pose proof (pick_code mv _ _ snm Hmv Enm (not_marker_missing snm Mnm Lnm1)) as Pnm.
+  pose proof (pick_code mv _ _ scomp Hmv Ecomp (not_marker_missing scomp Mcomp Lc1)) as Pcomp.
   pose proof (name_code snm sts Lnm4) as Hname.
-  eexists. split; [exact Hserial|]. split; [exact Hsq|].
   assert (La : String.length sasym = 1) by lia.
-  rewrite (rjust1_ljust1 sasym La).
-  set (l0 := match k with KATOM => ljust 6 (kind_name k) | KHETATM => kind_name k end).
-  assert (Hl0 : l0 = ljust 6 (kind_name k)) by (unfold l0; destruct k; reflexivity).
-  rewrite Hl0. clear Hl0 l0.
-  set (tailc := if eq_lit vch "?" then "  " else "").
+  unfold row_line. rewrite HRK. cbn [bind].
+  unfold assemble. rewrite Pnm, Pcomp, Ealt, Eins, Ech, Eid, Ets, Easym, Eseq, Ex, Ey, Ez, Eocc, Eb.
+  cbn [get bind py_str ljust_v rjust_v need_str].
   assert (HP : (if (String.length snm <? 4)%nat then @Ok bool (String.length sts <? 2)%nat else Ok false)
                = Ok (if (String.length snm <? 4)%nat then (String.length sts <? 2)%nat else false))
     by (destruct (String.length snm <? 4)%nat; reflexivity).
-  rewrite HP. clear HP. cbn [bind]. rewrite Hname.
-  match goal with |- context [parse_atom k ?L] =>
-    assert (HL : L = cat [ljust 6 (kind_name k); rjust 5 sid; " "; pdb_name snm sts; ljust 1 (tok_or "" alt);
-                          rjust 3 scomp; " "; ljust 1 sasym; rjust 4 sseq; ljust 1 (tok_or "" ins); "   ";
-                          rjust 8 sx; rjust 8 sy; rjust 8 sz; rjust 6 socc; rjust 6 sb; "      "; "    ";
-                          rjust 2 sts; tailc])
-      by (unfold tailc; cbn [cat fold_right]; destruct (eq_lit vch "?");
-          rewrite ?app_assoc_s; cbn [append]; rewrite ?app_empty_r; reflexivity)
-  end; rewrite HL; clear HL.
-  rewrite (parse_std k sid snm sts _ (tok_or "" alt) scomp sasym sseq _ (tok_or "" ins) sx sy sz socc sb tailc serial sq);
-    try assumption; cbn [bind]; unfold tailc; rewrite tail_chg; reflexivity.
+  rewrite HP. clear HP. cbn [bind]. rewrite Hname, Calt, Cins, Cch, (rjust1_ljust1 sasym La).
+  assert (Hl0 : match k with KATOM => ljust 6 (kind_name k) | KHETATM => kind_name k end = ljust 6 (kind_name k))
+    by (destruct k; reflexivity).
+  rewrite Hl0. clear Hl0.
+  unfold pdb_line_of_row. rewrite Eg, Eid, Enm, Ecomp, Easym, Eseq, Ex, Ey, Ez, Eocc, Eb, Ets. cbn [tok_or].
+  do 3 f_equal. rewrite !app_assoc_s. reflexivity.
+Qed.
+
+(* mmCIF = PDB for EVERY expressible row and every covered convention: the line is the PDB
+   record, so all sixteen parsed fields are those of the atom the row denotes *)
+Theorem cif_eq_pdb : forall mv r,
+  mv_ok mv = true -> expressible r = true ->
+  exists k serial seq,
+    spec_kind r = Some k /\
+    row_fields mv r = Ok (Some (pdb_line_of_row r, fields_of_row k serial seq r)) /\
+    parse_atom k (pdb_line_of_row r) = Ok (fields_of_row k serial seq r).
+Proof.
+  intros mv r Hmv HE.
+  assert (HKe : exists k, spec_kind r = Some k).
+  { unfold expressible in HE. repeat (apply andb_true_iff in HE; destruct HE as [HE _]).
+    destruct (spec_kind r); [eauto|discriminate]. }
+  destruct HKe as [k HK].
+  destruct (spec_roundtrip r k HE HK) as (serial & seq & _ & _ & H3).
+  exists k, serial, seq. split; [exact HK|]. split; [|exact H3].
+  unfold row_fields. rewrite (cif_line_is_pdb_record mv r k Hmv HE HK). cbn [bind]. rewrite H3. reflexivity.
 Qed.
 
 (* ---- the property on one row ------------------------------------------------------ *)
@@ -618,18 +642,12 @@ Proof.
 Qed.
 
 Lemma guard_expressible r : guard r = true -> expressible r = true.
-Proof. intros H. now destruct (guard_inv r H). Qed.
-
-Lemma expressible_kind r : expressible r = true -> exists k, spec_kind r = Some k.
-Proof.
-  unfold expressible. intros H. repeat (apply andb_true_iff in H; destruct H as [H _]).
-  destruct (spec_kind r); [eauto|discriminate].
-Qed.
+Proof. intros H. exact H. Qed.
 
 Lemma Ok_inj {A} (a b : A) : Ok a = Ok b -> a = b.
 Proof. congruence. Qed.
 
-(* mmCIF = PDB on the guarded rows: same atom, and it is the atom the row denotes *)
+(* the statement in the shape the loop lemmas (and Proofs/CleanRunCif.v) use; guard = expressible *)
 Theorem cif_eq_pdb_partial : forall mv r,
   mv_ok mv = true -> guard r = true ->
   exists k serial seq l f,
@@ -638,31 +656,16 @@ Theorem cif_eq_pdb_partial : forall mv r,
     parse_atom k (pdb_line_of_row r) = Ok (fields_of_row k serial seq r) /\
     primary f = primary (fields_of_row k serial seq r).
 Proof.
-  intros mv r Hmv HG. pose proof (guard_expressible _ HG) as HE.
-  destruct (expressible_kind _ HE) as [k HK].
-  destruct (cif_reads_row mv r k Hmv HG HK) as (serial & seq & l & H1 & H2 & H3).
-  destruct (spec_roundtrip r k HE HK) as (serial' & seq' & H1' & H2' & H3').
-  rewrite H1 in H1'. rewrite H2 in H2'. apply Ok_inj in H1', H2'. subst serial' seq'.
-  exists k, serial, seq, l, (fields_of_row_chg k serial seq r ""). auto.
+  intros mv r Hmv HG.
+  destruct (cif_eq_pdb mv r Hmv HG) as (k & serial & seq & H1 & H2 & H3).
+  exists k, serial, seq, (pdb_line_of_row r), (fields_of_row k serial seq r). auto.
 Qed.
 
-(* all sixteen parsed fields whenever the PDB record has blank charge columns *)
-Theorem cif_full_partial : forall mv r k,
-  mv_ok mv = true -> guard r = true -> charge_blank r = true -> spec_kind r = Some k ->
-  exists serial seq l,
-    py_int (tok_or "" (id r)) = Ok serial /\ py_int (tok_or "" (auth_seq_id r)) = Ok seq /\
-    row_fields mv r = Ok (Some (l, fields_of_row k serial seq r)).
+(* the full statement of the property on one row *)
+Theorem cif_agrees : forall mv r, mv_ok mv = true -> expressible r = true -> agrees mv r.
 Proof.
-  intros mv r k Hmv HG HC HK.
-  destruct (cif_reads_row mv r k Hmv HG HK) as (serial & seq & l & H1 & H2 & H3).
-  exists serial, seq, l. split; [exact H1|]. split; [exact H2|].
-  unfold fields_of_row. unfold charge_blank in HC. apply String.eqb_eq in HC. rewrite HC. exact H3.
-Qed.
-
-Corollary guard_agrees mv r : mv_ok mv = true -> guard r = true -> agrees mv r.
-Proof.
-  intros Hmv HG. destruct (cif_eq_pdb_partial mv r Hmv HG) as (k & serial & seq & l & f & H1 & H2 & H3 & H4).
-  exists k, l, f, (fields_of_row k serial seq r). auto.
+  intros mv r Hmv HE. destruct (cif_eq_pdb mv r Hmv HE) as (k & serial & seq & H1 & H2 & H3).
+  exists k, (pdb_line_of_row r), (fields_of_row k serial seq r), (fields_of_row k serial seq r). auto.
 Qed.
 
 Lemma mv_ok_installed : mv_ok mv_installed = true.
@@ -670,61 +673,38 @@ Proof. reflexivity. Qed.
 Lemma mv_ok_legacy : mv_ok mv_legacy = true.
 Proof. reflexivity. Qed.
 
-(* ---- what is still refuted (witnesses; replayed on the real code) ---------------------- *)
+Corollary cif_eq_pdb_both : forall r, expressible r = true -> agrees mv_installed r /\ agrees mv_legacy r.
+Proof. intros r HE. split; apply cif_agrees; auto using mv_ok_installed, mv_ok_legacy. Qed.
 
-Lemma not_agrees mv r : agreesb mv r = false -> ~ agrees mv r.
-Proof. intros H A. apply agrees_iff in A. congruence. Qed.
-
-(* residue name still read from label_comp_id *)
-Theorem label_comp_refuted : exists r l f,
-  expressible r = true /\ c_label_ne_auth r = true /\
-  ~ agrees mv_installed r /\ ~ agrees mv_legacy r /\
-  auth_comp_id r = Tok "HOH" /\ row_fields mv_installed r = Ok (Some (l, f)) /\ f_resname f = "WAT".
+(* outside mv_ok the statement fails: a library that handed '.' over as "X" would put X in column 17 *)
+Theorem mv_ok_needed : exists mv r, mv_ok mv = false /\ expressible r = true /\ ~ agrees mv r.
 Proof.
-  exists w_comp. eexists. eexists. split; [reflexivity|]. split; [reflexivity|].
-  split; [apply not_agrees; vm_compute; reflexivity|]. split; [apply not_agrees; vm_compute; reflexivity|].
-  split; [reflexivity|]. split; [vm_compute; reflexivity|]. reflexivity.
+  exists {| mv_dot := Some "X"; mv_qm := None |}, w_plain.
+  split; [reflexivity|]. split; [reflexivity|].
+  intros A. apply agrees_iff in A. vm_compute in A. discriminate.
 Qed.
 
-(* atom name still read from label_atom_id *)
-Theorem label_atom_refuted : exists r l f,
-  expressible r = true /\ c_label_ne_auth r = true /\
-  ~ agrees mv_installed r /\ ~ agrees mv_legacy r /\
-  auth_atom_id r = Tok "CA1" /\ row_fields mv_installed r = Ok (Some (l, f)) /\ f_name f = "CA".
-Proof.
-  exists w_atomname. eexists. eexists. split; [reflexivity|]. split; [reflexivity|].
-  split; [apply not_agrees; vm_compute; reflexivity|]. split; [apply not_agrees; vm_compute; reflexivity|].
-  split; [reflexivity|]. split; [vm_compute; reflexivity|]. reflexivity.
-Qed.
-
-(* formal charge: the atom is the same in the fields the property names, but the
-   charge column is never written *)
-Theorem formal_charge_refuted : exists r k l f fs,
-  guard r = true /\ pdbx_formal_charge r = Tok "1" /\
-  spec_kind r = Some k /\ row_fields mv_installed r = Ok (Some (l, f)) /\
-  parse_atom k (pdb_line_of_row r) = Ok fs /\
-  primary f = primary fs /\ f_chg fs = "1+" /\ f_chg f = "".
-Proof.
-  exists w_charge, KATOM. eexists. eexists. eexists.
-  split; [reflexivity|]. split; [reflexivity|]. split; [reflexivity|].
-  split; [vm_compute; reflexivity|]. split; [vm_compute; reflexivity|].
-  split; [reflexivity|]. split; reflexivity.
-Qed.
-
-(* regression: the witnesses of the repaired classes (no alt-loc with the installed library,
-   alt-loc, 4-character name, insertion code, 8-character coordinate, 6-character occupancy,
-   label_asym_id <> auth_asym_id, formal charge) are inside the guard and agree, under both
-   conventions; and the line is now the PDB record itself up to columns 79-80 *)
+(* regression + non-vacuity: every former refutation witness (ordinary row with the installed
+   library, alt-loc, HD21, insertion code, -100.123, occupancy 1.0000, label_asym B / auth A,
+   formal charge 1, label WAT / auth HOH, label CA / auth CA1) and a row without auth names
+   is expressible and agrees under both conventions; charge, names and coordinates come back *)
 Example guard_nonvacuous :
-  forallb guard fixed_witnesses = true /\
+  forallb expressible fixed_witnesses = true /\
   forallb (agreesb mv_installed) fixed_witnesses = true /\
   forallb (agreesb mv_legacy) fixed_witnesses = true /\
-  (exists l, row_fields mv_installed w_name4 = Ok (Some (l, fields_of_row KATOM 7 12 w_name4))) /\
-  (exists l, row_fields mv_installed w_wide = Ok (Some (l, fields_of_row KATOM 7 12 w_wide))
-             /\ f_x (fields_of_row KATOM 7 12 w_wide) = "-100.123").
+  (exists l, row_fields mv_installed w_charge = Ok (Some (l, fields_of_row KATOM 7 12 w_charge))
+             /\ f_chg (fields_of_row KATOM 7 12 w_charge) = "1+") /\
+  (exists l f, row_fields mv_legacy w_comp = Ok (Some (l, f)) /\ f_resname f = "HOH") /\
+  (exists l f, row_fields mv_installed w_atomname = Ok (Some (l, f)) /\ f_name f = "CA1") /\
+  (exists l f, row_fields mv_installed w_noauth = Ok (Some (l, f)) /\ f_name f = "CA" /\ f_resname f = "LYS" /\ f_chg f = "2-") /\
+  (exists l f, row_fields mv_installed w_wide = Ok (Some (l, f)) /\ f_x f = "-100.123").
 Proof.
   split; [vm_compute; reflexivity|]. split; [vm_compute; reflexivity|]. split; [vm_compute; reflexivity|].
-  split; eexists; [vm_compute; reflexivity|]. split; [vm_compute; reflexivity|reflexivity].
+  split; [eexists; split; [vm_compute; reflexivity|reflexivity]|].
+  split; [eexists; eexists; split; [vm_compute; reflexivity|reflexivity]|].
+  split; [eexists; eexists; split; [vm_compute; reflexivity|reflexivity]|].
+  split; [eexists; eexists; split; [vm_compute; reflexivity|repeat split; reflexivity]|].
+  eexists; eexists; split; [vm_compute; reflexivity|reflexivity].
 Qed.
 
 (* ---- whole atom_site(block): one record per selected row, in order ------------------ *)
@@ -807,9 +787,10 @@ Qed.
 
 (* several models *)
 Lemma model_line_int m n : okv 1 4 m = true -> py_int m = Ok n ->
-  py_int (strip (slice 10 14 (model_line (Some m)))) = Ok n.
+  model_serial (model_line (Some m)) = Some n.
 Proof.
   intros Hm Hn. apply okv_inv in Hm as (Nm & L1 & L2).
+  unfold model_serial. assert (H : py_int (strip (slice 10 14 (model_line (Some m)))) = Ok n); [|now rewrite H].
   unfold model_line. cbn [py_str].
   replace ("MODEL " ++ "    " ++ rjust 4 m) with (cat ["MODEL     "; rjust 4 m])
     by (cbn [cat fold_right]; rewrite app_empty_r; reflexivity).
@@ -819,7 +800,7 @@ Qed.
 
 Definition block_ok (mv : mvconv) (rows : list row) (j : pyval) (blk : list record) : Prop :=
   exists n recs,
-    blk = (RModel (model_line j) n :: recs ++ [REndmdl])%list /\
+    blk = (RModel (model_line j) (Some n) :: recs ++ [REndmdl])%list /\
     Forall2 (row_ok mv) (filter (selb (Some j)) rows) recs.
 
 Lemma models_loop_guard mv rows models :
@@ -833,12 +814,12 @@ Proof.
   - exists []. cbn. rewrite app_nil_r. split; [reflexivity|constructor].
   - destruct (HM j (or_introl eq_refl)) as (m & n & -> & Hm & Hn).
     cbn [models_loop]. rewrite (model_line_int m n Hm Hn).
-    destruct (rows_loop_guard mv (Some (Some m)) rows Hmv HG (acc ++ [RModel (model_line (Some m)) n])%list)
+    destruct (rows_loop_guard mv (Some (Some m)) rows Hmv HG (acc ++ [RModel (model_line (Some m)) (Some n)])%list)
       as (recs & E & F).
     rewrite E.
     destruct (IH (fun j' Hj' => HM j' (or_intror Hj'))
-                 (((acc ++ [RModel (model_line (Some m)) n]) ++ recs) ++ [REndmdl])%list) as (blocks & E2 & F2).
-    exists ((RModel (model_line (Some m)) n :: recs ++ [REndmdl])%list :: blocks).
+                 (((acc ++ [RModel (model_line (Some m)) (Some n)]) ++ recs) ++ [REndmdl])%list) as (blocks & E2 & F2).
+    exists ((RModel (model_line (Some m)) (Some n) :: recs ++ [REndmdl])%list :: blocks).
     rewrite E2. split.
     + f_equal. cbn [concat]. rewrite <- !app_assoc. cbn [app]. rewrite <- !app_assoc. reflexivity.
     + constructor; [|exact F2]. exists n, recs. auto.
@@ -883,6 +864,3 @@ Proof.
   - exists blocks. split; [exact E2|exact F2].
 Qed.
 
-(* the two conventions that exist: installed mmcif_pdbx 2.1.0 and verbatim tokens *)
-Corollary cif_eq_pdb_both : forall r, guard r = true -> agrees mv_installed r /\ agrees mv_legacy r.
-Proof. intros r HG. split; apply guard_agrees; auto using mv_ok_installed, mv_ok_legacy. Qed.
